@@ -94,6 +94,38 @@ func main() {
 	bt1(a)
 }
 ''',
+    "hz_depth": '''package main
+
+func source() string { return "tainted" }
+func sink(x any)     {}
+func cond() bool     { return len(source()) > 3 }
+
+func id(s string) string    { return s }
+func two(s string) string   { return id(id(s)) }
+func three(s string) string { return id(two(s)) }
+func five(s string) string  { return two(three(s)) }
+
+// the same node is reached from the source through a short and through a long path: with a depth bound the result must
+// not depend on which of them the traversal follows first
+func pick(a, b string) string {
+	if cond() {
+		return a
+	}
+	return b
+}
+
+func main() {
+	x := source()
+	sink(pick(x, id(x)))
+	sink(pick(id(x), two(x)))
+	sink(pick(x, three(x)))
+	sink(id(pick(two(x), five(x))))
+	sink(two(pick(x, five(x))))
+	y := pick(three(x), x)
+	sink(id(id(y)))
+	sink(three(y))
+}
+''',
     "hz_closure_shared": '''package main
 
 func source() string { return "tainted" }
@@ -126,6 +158,7 @@ TAINT_CFGS = [
     ("d_ondemand", {"summarize-on-demand": True}, 0, "d_ondemand"),
     ("d_fs", {"field-sensitive": True}, 0, "d_fs"),
     ("d_esc", {"use-escape-analysis": True}, 0, "d_esc"),
+    ("d_md7", {"unsafe-max-depth": 7}, 0, "d_md7"),     # a depth bound: which paths are cut must not depend on the order
     ("d_ma1", {"summarize-on-demand": False, "max-alarms": 1}, 1, "d_eager"),
     ("d_ma2", {"summarize-on-demand": True, "max-alarms": 2}, 2, "d_ondemand"),
 ]
